@@ -2,22 +2,27 @@
 """Apply every seeded change to /repo in turn, run the quick check of the property it targets (and
 of the properties recorded as detecting it), undo, and write seeded/RESULTS.json."""
 import json, os, re, subprocess, sys, time
+# lanes: LANE_REPO / LANE_VERIF point at private copies of /repo and /verif (tools/run_lanes.sh), LANE_RESULTS at the lane's result file
+REPO = os.environ.get("LANE_REPO", "/repo")
+VERIF = os.environ.get("LANE_VERIF", "/verif")
+ENV = dict(os.environ, VERIF_REPO=REPO)
 SEEDED = "/verif/seeded"
 only = sys.argv[1:]
-results = json.load(open(os.path.join(SEEDED, "RESULTS.json"))) if (only and os.path.exists(os.path.join(SEEDED, "RESULTS.json"))) else {}
+RES = os.environ.get("LANE_RESULTS", os.path.join(SEEDED, "RESULTS.json"))
+results = json.load(open(RES)) if (only and os.path.exists(RES)) else {}
 for name in sorted(os.listdir(SEEDED)):
     d = os.path.join(SEEDED, name)
     if not os.path.isdir(d) or (only and name not in only):
         continue
     meta = json.load(open(os.path.join(d, "meta.json")))
     props = [meta["property"]]
-    assert subprocess.run(["git", "-C", "/repo", "diff", "--quiet"]).returncode == 0, "repo dirty"
-    subprocess.run(["git", "-C", "/repo", "apply", os.path.join(d, "patch.diff")], check=True)
+    assert subprocess.run(["git", "-C", REPO, "diff", "--quiet"]).returncode == 0, "repo dirty"
+    subprocess.run(["git", "-C", REPO, "apply", os.path.join(d, "patch.diff")], check=True)
     res = {}
     try:
         for p in props:
             t0 = time.time()
-            q = subprocess.run(["./check", p, "--tier", "quick"], cwd="/verif", capture_output=True, text=True)
+            q = subprocess.run(["./check", p, "--tier", "quick"], cwd=VERIF, env=ENV, capture_output=True, text=True)
             lines = [l for l in q.stdout.splitlines() if re.match(r"(OK|VIOLATION|KNOWN|INTERNAL)", l)]
             first = next((l for l in lines if l.startswith(("VIOLATION", "INTERNAL", "OK"))), "")
             entry = {"rc": q.returncode, "line": first[:200], "wall_s": round(time.time() - t0)}
@@ -30,8 +35,8 @@ for name in sorted(os.listdir(SEEDED)):
                 entry["stderr"] = q.stderr[-1500:]
             res[p] = entry
     finally:
-        subprocess.run(["git", "-C", "/repo", "checkout", "--", "."], check=True)
-        subprocess.run(["git", "-C", "/repo", "clean", "-fdq", "src", "tests"], check=True)
+        subprocess.run(["git", "-C", REPO, "checkout", "--", "."], check=True)
+        subprocess.run(["git", "-C", REPO, "clean", "-fdq", "src", "tests"], check=True)
     results[name] = res
     print(name, {p: (e["rc"], e.get("kind")) for p, e in res.items()}, flush=True)
-    json.dump(results, open(os.path.join(SEEDED, "RESULTS.json"), "w"), indent=1)
+    json.dump(results, open(RES, "w"), indent=1)
